@@ -979,3 +979,109 @@ func c07r8(rc *core.RC) {
 		rc.Unknown("decoder/advance-sites", token.NoPos, "found %d cursor advances", sites)
 	}
 }
+
+// ---- C07.R9 no pointer is manufactured from an integer ----
+
+// unsafe.Pointer(x) with x of type uintptr is valid only in the patterns of the unsafe package's
+// documentation: x is, in that same expression, uintptr(p) for a pointer p, optionally with offsets
+// added or bits cleared. Converting a uintptr variable makes a pointer the garbage collector and
+// checkptr (on in race builds) never saw as one: for an address on the heap (a type descriptor made
+// by reflect.StructOf, a value's address kept in a frame slot) the race build dies with "checkptr:
+// pointer arithmetic result points to invalid allocation". The library's idiom for this is
+// *(*unsafe.Pointer)(unsafe.Pointer(&x)); its single deliberate exception is the escape-analysis
+// helper `noescape` (x ^ 0).
+func c07r9(rc *core.RC) {
+	p := rc.P
+	n, convs := 0, 0
+	for _, pk := range p.LibPkgs() {
+		info := pk.TypesInfo
+		for _, f := range pk.Syntax {
+			for _, d := range f.Decls {
+				fd, ok := d.(*ast.FuncDecl)
+				if !ok || fd.Body == nil {
+					continue
+				}
+				fn := p.FuncName(fd)
+				k := 0
+				ast.Inspect(fd.Body, func(m ast.Node) bool {
+					c, ok := m.(*ast.CallExpr)
+					if !ok || len(c.Args) != 1 {
+						return true
+					}
+					tv, isConv := info.Types[c.Fun]
+					if !isConv || !tv.IsType() {
+						return true
+					}
+					if b, isBasic := tv.Type.(*types.Basic); !isBasic || b.Kind() != types.UnsafePointer {
+						return true
+					}
+					at, has := info.Types[c.Args[0]]
+					if !has {
+						return true
+					}
+					if b, isBasic := at.Type.Underlying().(*types.Basic); !isBasic || b.Kind() != types.Uintptr {
+						return true
+					}
+					convs++
+					k++
+					key := fmt.Sprintf("%s/uintptr-to-pointer#%d", fn, k)
+					switch {
+					case derivedFromPointer(info, c.Args[0]):
+						n++
+						rc.OK(key, c.Pos(), "the integer is uintptr(pointer) with arithmetic, in the same expression")
+					case isNoescapeShape(c.Args[0]):
+						n++
+						rc.OK(key, c.Pos(), "the escape-analysis helper (x ^ 0): its argument is a pointer the caller still holds")
+					default:
+						n++
+						rc.Bad(key, c.Pos(), "unsafe.Pointer(%s) turns an integer that is not derived from a pointer in this expression into a pointer: invalid by the unsafe rules, fatal under checkptr (race builds) when the address is on the heap", core.Src(p.Fset, c.Args[0]))
+					}
+					return true
+				})
+			}
+		}
+	}
+	if convs < 15 {
+		rc.Unknown("lib/uintptr-to-pointer-conversions", token.NoPos, "found %d conversions from uintptr to unsafe.Pointer (17 confirmed)", convs)
+	}
+}
+
+// derivedFromPointer: e is uintptr(<pointer>) possibly combined by + - &^ * with other integers, the
+// pointer-derived operand being on the left of + and - (the unsafe package's patterns 3 and 4), or a
+// call of reflect.Value.Pointer / UnsafeAddr (pattern 5).
+func derivedFromPointer(info *types.Info, e ast.Expr) bool {
+	e = core.Unparen(e)
+	switch x := e.(type) {
+	case *ast.BinaryExpr:
+		switch x.Op {
+		case token.ADD, token.SUB, token.AND_NOT:
+			return derivedFromPointer(info, x.X)
+		}
+	case *ast.CallExpr:
+		if len(x.Args) == 1 {
+			if tv, ok := info.Types[x.Fun]; ok && tv.IsType() {
+				if b, isBasic := tv.Type.Underlying().(*types.Basic); isBasic && b.Kind() == types.Uintptr {
+					if at, has := info.Types[x.Args[0]]; has {
+						if ab, isB := at.Type.Underlying().(*types.Basic); isB && ab.Kind() == types.UnsafePointer {
+							return true
+						}
+					}
+				}
+			}
+		}
+		switch core.CalleeName(info, x) {
+		case "reflect.Value.Pointer", "reflect.Value.UnsafeAddr":
+			return true
+		}
+	}
+	return false
+}
+
+func isNoescapeShape(e ast.Expr) bool {
+	be, ok := core.Unparen(e).(*ast.BinaryExpr)
+	if !ok || be.Op != token.XOR {
+		return false
+	}
+	lit, ok := core.Unparen(be.Y).(*ast.BasicLit)
+	return ok && lit.Value == "0"
+}
